@@ -85,7 +85,8 @@ def _run_entry(args):
             chk = Check(prop, repo, "quick")
             from .core import run_rules
             errs = run_rules(mod, chk)
-            viol = sorted({o.rule for o in chk.obs if not o.ok})
+            from .core import unlisted_violations
+            viol = sorted({o.rule for o in unlisted_violations(chk)})
             if errs and not viol:
                 return e["name"], "analysis-error", [x[:120] for x in errs[:2]]
             return e["name"], "ran", viol
